@@ -844,8 +844,49 @@ def ordered_rules_docs():
     return out
 
 
+def extended_expr_docs(tier, rng):
+    """temporal correlation rules whose extended condition is a random expression tree over three rules, in a random spelling:
+    every operator below every other one (NOT over AND, NOT over OR, OR below AND, AND below OR), redundant parentheses and
+    blanks.  The expression is part of the meaning: the reloaded rule must convert to the same query (seed C06s1: to_dict
+    re-spelled the expression from the parse tree and dropped the parentheses of an AND below NOT)."""
+    names = ["base", "other_rule", "third_rule"]
+
+    def tree(d):
+        r = rng.random()
+        if d == 0 or r < 0.25: return rng.choice(names)
+        if r < 0.45: return ("not", tree(d - 1))
+        return (rng.choice(["and", "or"]), [tree(d - 1) for _ in range(rng.choice([2, 2, 3]))])
+
+    def top(t): return 0 if isinstance(t, str) else 1 if t[0] == "not" else 2 if t[0] == "and" else 3
+
+    def spell(t):
+        if isinstance(t, str): return t
+        if t[0] == "not":
+            a = spell(t[1])
+            return "not " + (a if isinstance(t[1], str) else "(" + a + ")")
+        lvl = top(t)
+        parts = []
+        for a in t[1]:
+            x = spell(a)
+            if top(a) >= lvl or rng.random() < 0.2: x = "(" + rng.choice(["", " "]) + x + rng.choice(["", " "]) + ")"
+            parts.append(x)
+        return rng.choice([" ", "  "]).join(p for y in parts for p in (t[0], y))[len(t[0]):].strip()
+
+    fixed = ["third_rule and not (base and other_rule)", "not (base and other_rule)", "not (base or other_rule) and third_rule",
+             "(base or other_rule) and third_rule", "base or other_rule and third_rule", "(base and other_rule) or third_rule",
+             "not (base and (other_rule or third_rule))", "base and (other_rule or not (third_rule and base))"]
+    exprs = fixed + [spell(tree(3)) for _ in range(40 if tier == "quick" else 600)]
+    out = []
+    for i, e in enumerate(exprs):
+        t = ("temporal", "temporal_ordered")[i % 2]
+        c = {"type": t, "rules": names, "timespan": "5m", "condition": e}
+        if i % 3 == 0: c["group-by"] = ["u"]
+        out.append({"kind": "corr", "doc": {"title": "extended expression", "name": "corr_x", "correlation": c}, "base": BASE_RULES3})
+    return out
+
+
 def gen_doc(tier, rng):
-    fixed = ordered_rules_docs()
+    fixed = ordered_rules_docs() + extended_expr_docs(tier, rng)
     out = falsy_docs(tier, rng)
     if tier == "quick":
         # the quick tier keeps every correlation-condition boundary case and a seeded half of the rest
